@@ -547,7 +547,8 @@ func runCall(c *call, r recorder) (out outcome, _ error) {
 			for i, ai := range c.alias {
 				if group[i] == g {
 					mutable = mutable || ai.mutable
-					changed = changed || ai.initIn || w.posAt(ai.from).cfg != nil || w.posAt(ai.to).cfg != nil
+					// (an explicit null counts: as an element of a list or an entry of a map it resets the object to its zero value)
+					changed = changed || ai.initIn || w.posAt(ai.from).set || w.posAt(ai.to).set
 				}
 			}
 			for i, ai := range c.alias {
